@@ -143,3 +143,20 @@ Example C15_ex_definition_echo :
   /\ parse (pp_def e) = Ok [StLet (mk_defvar [118]%N (Some (TAExp (TEIdent [83; 99; 97; 108; 97; 114]%N []))) ds
                                    (EBin Add (EScalar [49]%N) (EScalar [50]%N)))] [].
 Proof. vm_compute. repeat split; reflexivity. Qed.
+
+(* an interpolated string with a quote, a brace and a newline in its fixed parts and format
+   specifiers: its echo is read back as the same parts, and the echo is a fixed point *)
+Example C15_ex_interpolated_string :
+  let e := XInterp [113; 34; 123]%N
+             [(XBin Add (x_ 97) (n_ 49), Some [58; 46; 50; 102]%N, [10]%N); (XString [125]%N, None, []%N)] in
+  printable_t e = true /\ exact_t e = true
+  /\ pp e = [TInterpStart [34; 113; 92; 34; 123; 123; 123]; TIdent [97]; TPlus; TNumber [49];
+             TInterpSpec [58; 46; 50; 102]; TInterpMiddle [125; 92; 110; 123];
+             TString [34; 125; 125; 34]; TInterpEnd [125; 34]]%N
+  /\ parse (pp e) = Ok [StExpr (EInterp [PFixed [113; 34; 123]%N;
+                                          PExpr (EBin Add (EIdent [97]%N) (EScalar [49]%N)) (Some [58; 46; 50; 102]%N);
+                                          PFixed [10]%N; PExpr (EString [125]%N) None])] []
+  /\ erase e = EInterp [PFixed [113; 34; 123]%N;
+                        PExpr (EBin Add (EIdent [97]%N) (EScalar [49]%N)) (Some [58; 46; 50; 102]%N);
+                        PFixed [10]%N; PExpr (EString [125]%N) None].
+Proof. vm_compute. repeat split; reflexivity. Qed.
